@@ -48,6 +48,8 @@ pub enum Req {
     Validate(usize),
     /// with_channel: sign the holder commitment (reads the channel, takes node state)
     SignHolder(usize),
+    /// with_channel: sign the next counterparty commitment (read-modify-write of the counterparty side)
+    SignCp(usize),
     /// with_channel_base: read a per-commitment point
     Point(usize),
     Forget(usize),
@@ -65,7 +67,7 @@ impl Req {
     /// request kind in the generated lock table
     pub fn kind(&self) -> &'static str {
         match self {
-            Req::Validate(_) | Req::SignHolder(_) => "channel_request",
+            Req::Validate(_) | Req::SignHolder(_) | Req::SignCp(_) => "channel_request",
             Req::Point(_) => "channel_base_request",
             Req::Forget(_) => "forget_channel",
             Req::Balance => "channel_balance",
@@ -82,6 +84,7 @@ impl Req {
         match self {
             Req::Validate(c) => format!("req {} validate {}", tid, c),
             Req::SignHolder(c) => format!("req {} signholder {}", tid, c),
+            Req::SignCp(c) => format!("req {} signcp {}", tid, c),
             Req::Point(c) => format!("req {} point {}", tid, c),
             Req::Forget(c) => format!("req {} forget {}", tid, c),
             Req::Balance => format!("req {} balance", tid),
@@ -100,6 +103,7 @@ impl Req {
         let r = match *toks.get(2)? {
             "validate" => Req::Validate(arg()? as usize),
             "signholder" => Req::SignHolder(arg()? as usize),
+            "signcp" => Req::SignCp(arg()? as usize),
             "point" => Req::Point(arg()? as usize),
             "forget" => Req::Forget(arg()? as usize),
             "balance" => Req::Balance,
@@ -242,6 +246,28 @@ fn do_req(w: &World, r: &Req) -> String {
                 let r = node.with_channel(&cc.channel_id, |chan| {
                     let n = chan.enforcement_state.next_holder_commit_num - 1;
                     chan.sign_holder_commitment_tx_phase2(n).map(|s| (n, s))
+                });
+                match r {
+                    Ok((n, s)) => format!("ok {} {}", n, &hex::encode(s.serialize_compact())[..8]),
+                    Err(e) => format!("err:{:?}:{}", e.code(), e.message()),
+                }
+            }
+        },
+        Req::SignCp(c) => match w.chans.get(*c) {
+            None => "nochan".into(),
+            Some(cc) => {
+                let r = node.with_channel(&cc.channel_id, |chan| {
+                    let n = chan.enforcement_state.next_counterparty_commit_num;
+                    chan.sign_counterparty_commitment_tx_phase2(
+                        &make_test_pubkey(0x20 + n as u8),
+                        n,
+                        0,
+                        CHANNEL_VALUE - 1000,
+                        0,
+                        vec![],
+                        vec![],
+                    )
+                    .map(|(s, _)| (n, s))
                 });
                 match r {
                     Ok((n, s)) => format!("ok {} {}", n, &hex::encode(s.serialize_compact())[..8]),
@@ -856,7 +882,7 @@ fn gen_scenario(rng: &mut Rng) -> Scenario {
             let c = rng.below(nchan as u64) as usize;
             let r = match rng.below(20) {
                 0..=4 => Req::Validate(c),
-                5 => Req::SignHolder(c),
+                5 => if rng.chance(1, 2) { Req::SignHolder(c) } else { Req::SignCp(c) },
                 6 => Req::Point(c),
                 7..=8 => Req::Forget(if rng.chance(1, 5) { 9 } else { c }),
                 9..=10 => Req::Balance,
@@ -940,6 +966,19 @@ impl Group for C20 {
     }
     fn corpus(&self) -> Vec<Vec<String>> {
         vec![]
+    }
+}
+
+/// debug helper: `VERIF_C20_TRY="signcp 0"` prints the sequential reply of one request
+pub fn try_req() {
+    if let Ok(v) = std::env::var("VERIF_C20_TRY") {
+        let line = format!("req 0 {}", v);
+        let t: Vec<&str> = line.split(' ').collect();
+        let (_, r) = Req::parse(&t).expect("request");
+        let sc = Scenario { nchan: 2, stub: true, threads: vec![vec![r.clone(), r]] };
+        let out = run_scenario(&sc, Sched::Random, 1, Some(vec![0, 0]));
+        println!("{:?}\n{}", out.replies, out.final_state);
+        std::process::exit(0);
     }
 }
 
